@@ -13,13 +13,13 @@ CHECKS = {
  "C01": ("table extraction from SSA (operator, op-assign, width, literal and type-name tables) compared with each other and with the reference GooseLang notation; pass-through audit; let-scope rules shared with C05",
          "Decides necessary conditions of meaning preservation that hold for every program at once: each Go operator is printed with GooseLang's notation for it, op-assign agrees with the plain operator, + is append exactly for strings, integer widths/literals/type names/conversions are consistent, and every handler that translates a construct as its operand is audited. Level 'other': the semantic equality itself needs GooseLang's semantics (Perennial) and is not decided.",
          "GooseLang semantics are outside the repository. Four known findings (type assertion dropped, integer conversion pass-through, two let-scope leaks).", "DESIGN.md §4 C01"),
- "C02": ("interprocedural AST-field consumption analysis on SSA (per node value, summaries to a fixpoint), slice-arity bounds from must-facts, path-enumerated token dispatch, spelling-recogniser enumeration, control-effect facts",
+ "C02": ("interprocedural AST-field consumption analysis on SSA (per node value, summaries to a fixpoint), slice-arity bounds from must-facts, path-enumerated token dispatch (tables in any shape), enumeration of spelling comparisons against resolved recognisers found by role, control-effect facts, multi-result agreement of binding constructions",
          "Decides for every input program at once the translator-side conditions of reject-or-translate: every meaning-carrying field of every inspected go/ast node is read by a guard or a translation, constant indices cover their slices, token dispatch has no silent default, meaning is not chosen by spelling where a predeclared name is meant, and return/break/continue are translated only where their control effect is available (with a sound must-end analysis). Level 'other'.",
-         "That an accepted construct's translation includes Go's behaviour is C01's semantic core. Known findings: type-assertion type ignored, package/type look-alikes by spelling (11 sites).", "DESIGN.md §4 C02"),
+         "That an accepted construct's translation includes Go's behaviour is C01's semantic core. Known findings: type-assertion type ignored, package/type look-alikes by spelling (one entry per class and literal).", "DESIGN.md §4 C02"),
  "C03": ("path-enumerated case tables of the sync translators compared with the reference library mapping; recogniser constant sets; dispatch-order facts; spawn-shape facts",
          "Decides the translator-side necessary conditions for concurrent programs: every sync method/function is mapped to the GooseLang library function of the reference table and nothing else is, the type recognisers accept exactly *sync.Mutex/Cond/WaitGroup and are consulted before the generic method path, go statements are translated only for argument-less function literals with no control effect. Level 'other'.",
          "Interleavings of the emitted program under GooseLang's scheduler are not decided (scheduler and libraries are not in the repository).", "DESIGN.md §4 C03"),
- "C04": ("name-provenance classification at global-reference sinks paired with addDep on all paths (SSA), store/registration order, CFG facts of the emission closure",
+ "C04": ("name-provenance classification at global-reference sinks paired with addDep on all paths (SSA), registration dominance at every spec-to-declaration producer call, CFG facts of the emission function (found by role), path-sensitive ok-discipline of (info, ok) lookups",
          "Decides, for every input program at once, the translator-side necessary conditions of defined-before-use and unique naming: every emitted same-package global reference is paired with dependency recording on every path, definition names are registered in their final form, the emission closure marks, visits every recorded dependency unconditionally and only then appends, method names come from one function. Level 'other'.",
          "Coq accepting the file is not decided. One known finding (T__m collision).", "DESIGN.md §4 C04"),
  "C05": ("per-path delimiter balance of every printer function, needs_paren classification of every emitter, taint from Go text to Coq string/comment sinks with value-specific guard facts, control-dependence of configuration flags",
@@ -31,7 +31,7 @@ CHECKS = {
  "C07": ("call-graph recover discipline + audited enumeration of every potential run-time panic site with automatic discharge by must-facts (length bounds, nil tests, type tests, caller-established facts) and invariant tables",
          "Decides for all type-correct inputs that a structured error is always recovered, and that every raw panic, single-result type assertion, constant slice index, partial-helper call, nil go/types package and documented-nil go/ast field in the translator and printer is guarded or justified by a named go/ast / go/types / Go-typing invariant; new unaudited sites fail. Also categories, positions and error aggregation. Level 'other'.",
          "Termination and panics inside dependencies are not decided; the invariant tables are reviewed by hand and listed in the evidence.", "DESIGN.md §4 C07"),
- "C08": ("table extraction from init SSA, callback-shape facts (packages.Visit pre/post), path enumeration of header/footer, provenance of emitted paths",
+ "C08": ("table extraction from init SSA, callback-shape facts (packages.Visit pre/post), path enumeration of header/footer, structural keys of the emitted Require and file paths on abstract paths (every occurrence of the import path lies inside the one path mapping)",
          "Decides that the FFI table is consistent with the builtin table, the import-graph walk prunes exactly at FFI packages and refuses two FFIs, header/footer pair up, the Require path and the output file path both derive from pathToCoqPath of the whole import path, ImportDecls are produced exactly for non-builtin imports, printed once sorted and de-duplicated. Level 'other'.",
          "Coq resolving the Require is not decided.", "DESIGN.md §4 C08"),
  "C11": ("path enumeration with branch facts (error/count result discipline), must-pass-through (fsync), unit-aware open-path rule",
@@ -52,10 +52,10 @@ CHECKS = {
  "C16": ("idiom recognition + exhaustive two-valued CFG evaluation (Assume/Assert)",
          "Decides canonical-decimal formatting of the uint64 parameter, delete-all MapClear (clear builtin), Assume/Assert panic iff the argument is false by exhaustive evaluation of their CFG for c in {true,false}, and the forwarding shape of WaitTimeout/NewProph/Sleep. Level 'other'.",
          "WaitTimeout's timing and lock state live in another module and are timing dependent: not decided.", "DESIGN.md §4 C16"),
- "C17": ("phi-structure analysis of the error flag, CFG reachability with edge filters (write gating), path enumeration (compare-before-write), provenance of the output path, table extraction of loader config and flag wiring",
+ "C17": ("abstract interprocedural paths of translate/TranslatePackages/the file writer (helpers spliced in, loop state symbolic so that a one-iteration path is an inductive step) for exit status, write gating, file placement, compare-before-write and loading; phi-structure of the error flag; table extraction of loader config and flag wiring",
          "Decides that the exit status is non-zero iff some package failed (monotone flag, return only on flag false, every os.Exit non-zero), that every clean package is written and a failed one only under -ignore-errors, at path.Join(out, ImportToPath(pkg path)), unchanged files are not rewritten and changed ones are written by os.WriteFile, the loader uses -tags goose / Dir / unchanged patterns, and the partial file carries the declarations that translated. Level 'other'.",
          "What go/packages matches and file-system effects are not decided.", "DESIGN.md §4 C17"),
- "C18": ("regular-language equivalence (regexp/syntax -> NFA -> simultaneous subset construction), CFG facts for filters and emissions",
+ "C18": ("regular-language equivalence (regexp/syntax -> NFA -> simultaneous subset construction) of the two generators' patterns; facts and ordered events on the abstract interprocedural paths of main (generators identified by the pattern they apply; suffix predicates incl. table-driven helpers) for filters and emissions",
          "Decides that both generators match exactly the same lines (language equivalence of the two regex literals and of their groups, name reconstruction), apply the same file filter, emit exactly one test per match with Fail iff the failing group is non-empty, and truncate the output file. Level 'other'.",
          "Matches inside raw strings/block comments are a shared limitation of the line-regex approach: not decided.", "DESIGN.md §4 C18"),
 }
